@@ -222,6 +222,19 @@ def _inside_checks(pts, poly, nogo, what):
                 raise Violation(f"{what}: borehole {pt} lies {dz:.4g} m inside a no-go zone", sig={"kind": "inside_nogo"})
 
 
+def _order_dependent(case, poly, nogo, s, rot, per):
+    def run(zones):
+        try:
+            pts, _ = _generate(case, poly, zones, s, rot, per)
+        except Violation:
+            return "no_termination"
+        except Exception as e:  # noqa: BLE001 -- only the outcome class is compared here
+            return type(e).__name__
+        return sorted((round(float(x), 6), round(float(y), 6)) for x, y in pts)
+
+    return run(nogo) != run(nogo[::-1])
+
+
 def check_gen(case, rec):
     poly = [list(map(float, v)) for v in case["poly"]]
     s = case["s"]
@@ -237,6 +250,10 @@ def check_gen(case, rec):
         _gen_oracles(case, rec, poly, nogo, s, rot, per, pts, used)
     except Violation as v:
         v.sig.update(feats)
+        if nogo:
+            # discriminator for the known weak spot KF-C14-1 (mishandled row/zone intersections, independent of how the
+            # zones are listed): does listing the same zones in reverse order change the generated field?
+            v.sig["zone_order_dependent"] = len(nogo) >= 2 and _order_dependent(case, poly, nogo, s, rot, per)
         raise
     axis_rect = len(poly) == 4 and all(poly[i][0] == poly[i - 1][0] or poly[i][1] == poly[i - 1][1] for i in range(4))
     if not axis_rect or case.get("touch", "none") != "none":
